@@ -100,7 +100,12 @@ void run_qrreal(unsigned seed, int lc10) {
     const ld brec = QR_CREC * n * eps, borth = QR_CORTH * n * eps * cond;
     if (!(rec <= brec)) why += ";reconstruction";
     if (!(orth <= borth)) why += ";orthogonality";
-    { ld p = 1; for (size_t i = 0; i < n; ++i) p *= (ld)Rd(i, i); if (!(std::fabs((ld)det - p) <= 4 * n * eps * std::fabs(p))) why += ";det!=prod(R_ii)"; }
+    // product of the diagonal: relative 4 n eps, plus an absolute term of n smallest-normal numbers — a product of
+    // 24..32 floats of a matrix with cond 1e3 leaves the normal range of float (1e-56), where `product(diag(R))`
+    // underflows gradually; the property does not ask the float product to be more than a float product
+    { ld p = 1; for (size_t i = 0; i < n; ++i) p *= (ld)Rd(i, i);
+      const ld tiny = (ld)std::numeric_limits<T>::min() * n;
+      if (!(std::fabs((ld)det - p) <= 4 * n * eps * std::fabs(p) + tiny)) why += ";det!=prod(R_ii)"; }
     std::printf("qrreal cfg=%s T=%s n=%zu strat=%s lc=%d seed=%u | %s orth=%.3Le/%.3Le rec=%.3Le/%.3Le\n", CFGNAME, tn<T>::n(), n, SNAME[S], lc10, seed,
                 why.empty() ? "ok" : ("FAIL " + why.substr(1)).c_str(), orth, borth, rec, brec);
 }
